@@ -222,7 +222,38 @@ func (sr *StyleResolver) applyStyleDef(resolved *ResolvedStyle, def *styleDefXML
 }
 
 // detectHeading determines if a style represents a heading.
+//
+// A style based on a heading style is a heading of the same level (Word inherits
+// the outline level along basedOn), so the style and its ancestors are examined
+// from derived to base and the first level found wins.
 func (sr *StyleResolver) detectHeading(def *styleDefXML, resolved *ResolvedStyle) (bool, int) {
+	chain := sr.buildInheritanceChain(def.StyleID) // base first, def last; cycles cut
+	for i := len(chain) - 1; i >= 0; i-- {
+		ancestor, ok := sr.styles[chain[i]]
+		if !ok {
+			// basedOn names a style without definition: only its ID can tell
+			if isHeading, level := detectBuiltInHeading(chain[i]); isHeading {
+				return true, level
+			}
+			continue
+		}
+		if isHeading, level := detectHeadingDef(ancestor); isHeading {
+			return true, level
+		}
+	}
+
+	// Heuristic: large, bold text at start of document section might be heading
+	// (This is a fallback for documents without proper heading styles)
+	if resolved.Bold && resolved.FontSize >= 14 {
+		return true, estimateHeadingLevel(resolved.FontSize)
+	}
+
+	return false, 0
+}
+
+// detectHeadingDef checks what a single style definition says about being a
+// heading: built-in ID, heading-like name, or an outline level of its own.
+func detectHeadingDef(def *styleDefXML) (bool, int) {
 	// Check for built-in heading style ID
 	if isHeading, level := detectBuiltInHeading(def.StyleID); isHeading {
 		return true, level
@@ -246,12 +277,6 @@ func (sr *StyleResolver) detectHeading(def *styleDefXML, resolved *ResolvedStyle
 		if level >= 0 && level <= 8 {
 			return true, level + 1 // OutlineLvl is 0-based
 		}
-	}
-
-	// Heuristic: large, bold text at start of document section might be heading
-	// (This is a fallback for documents without proper heading styles)
-	if resolved.Bold && resolved.FontSize >= 14 {
-		return true, estimateHeadingLevel(resolved.FontSize)
 	}
 
 	return false, 0
